@@ -14,6 +14,7 @@ RULE = ("every op form of the tensor and nn catalogues with operands stored as p
         "mutators (optimizer.step, initialisers, zero_grad) change only what they document; backward sweeps over random DAG programs with "
         "bystander graphs; every kernel call is wrapped by an argument-mutation sanitizer that names the kernel. distinct key = (op, form, "
         "storage class, argclass); non-trivial = an operand is a non-contiguous or shared-base view, or the case includes follow-up events")
+RULE += (" Added after the seeded rounds: tensor-level snapshots (the array an operand tensor holds afterwards, its dtype); inputs whose dtype differs from the layer's parameters, integer / bool targets; an earlier result is not rewritten by a later call on other values; eval-mode batch norm never writes its buffers (toggled tracking, fresh module, repeated calls); deep copies own data and gradient buffers.")
 ASSUMPTIONS = ["aliasing without a write (a result sharing memory with an operand, e.g. reshape) is recorded as information, never as a violation",
                "bit-identical repeat is asserted in one process with BLAS pinned to one thread"]
 SHARD_TIMEOUT = {"quick": 900, "thorough": 3600}
